@@ -1,7 +1,13 @@
 import GluonModel.Sexp
-open GluonModel
+import GluonModel.Core
+import GluonModel.CoreParse
+open GluonModel GluonModel.Core
 
 def handle : List Sexp → String
+  | [.atom "evalcore", g, e] =>
+    match parseGlobals g, parseExpr e with
+    | some g, some e => renderRes (evalCore 100000 g e)
+    | _, _ => "bad-request"
   | _ => "unimplemented"
 
 def main : IO Unit := driverLoop handle
